@@ -19,7 +19,7 @@ ASSUMPTIONS = [
 ]
 COMPONENTS = pcheck.components()
 TIERS = {
-    "quick": {"histories": 512, "budget_s": 100, "timeout": 300},
+    "quick": {"histories": 512, "budget_s": 120, "timeout": 300},
     "thorough": {"histories": 6400, "budget_s": 1500, "timeout": 400},
 }
 
